@@ -37,7 +37,7 @@ class C17(RailsProp):
             "distinct = distinct (mode, task at the position, hostile text name)")
     expected_probes = ["hostile_at_intent_call", "hostile_at_next_steps_call", "hostile_at_bot_message_call", "hostile_at_v2_value_generation", "template_text_survived_literally"]
     exhaustive_parts = ["every LLM call position of every sampled conversation", "the whole hostile corpus per position in the thorough tier"]
-    quick_runs = 48
+    quick_runs = 32
     thorough_runs = 1500
     chunk = 1
     run_timeout_s = 900.0
@@ -68,7 +68,7 @@ class C17(RailsProp):
                   "convs": [{"turns": [{"tok": "#c0t%d#" % i, "text": t} for i, t in enumerate(texts)]}], "lat_seed": 0, "lat_mode": "zero"}
         sc["hostile"] = "enumerate"
         sc["corpus_seed"] = d.randint(0, 1 << 30, "cseed")
-        sc["per_position"] = 5 if tier == "quick" else len(corpus.HOSTILE) + 4
+        sc["per_position"] = 4 if tier == "quick" else len(corpus.HOSTILE) + 4
         return sc
 
     def run_one(self, sc, fault, tr):
